@@ -159,9 +159,10 @@ namespace
     const Objects::NaturalCoordinate nc(pos, *w->parameters.coordinate_system);
     const double depth = sym_f64("depth"), T0 = sym_f64("T0"), C0 = sym_f64("C0"), g = sym_f64("gravity");
     const unsigned comp = sym_u32("composition"); sym_assume(comp < 3);
-    const std::vector<Prop> props = {{{1,0,0}}, {{4,0,0}}, {{2,comp,0}}, {{5,0,0}}};
-    const std::vector<size_t> entry = {0, 1, 2, 3};
-    std::vector<double> out = {T0, -1.0, C0, sym_f64("v0"), sym_f64("v1"), sym_f64("v2"), sym_f64("guard")};
+    // velocity first, so that no entry other than it sits at the slot equal to its index in the request
+    const std::vector<Prop> props = {{{5,0,0}}, {{1,0,0}}, {{4,0,0}}, {{2,comp,0}}};
+    const std::vector<size_t> entry = {0, 3, 4, 5};
+    std::vector<double> out = {sym_f64("v0"), sym_f64("v1"), sym_f64("v2"), T0, -1.0, C0, sym_f64("guard")};
     const std::vector<double> old = out;
 
     if (mode == 2)
@@ -187,13 +188,13 @@ namespace
         sym_assume(pos[0] >= minx - buffer && pos[0] <= maxx + buffer && pos[1] >= miny - buffer && pos[1] <= maxy + buffer);
       }
     f->F::properties(pos, nc, depth, props, g, entry, out);
-    const bool painted = out[1] == 7.0;
-    sym_assert(out[1] == 7.0 || out[1] == -1.0, "tag is own index or untouched");
+    const bool painted = out[4] == 7.0;
+    sym_assert(out[4] == 7.0 || out[4] == -1.0, "tag is own index or untouched");
     sym_assert(sym_eq(out[6], old[6]), "nothing outside the requested slots is written");
 
     // ---- oracle: documented bilinear interpolation between the two adjacent sections, then along the segment
     const bool depth_ok = depth <= f->maximum_depth && depth >= f->starting_depth;
-    if (!depth_ok) { sym_assert(!painted && sym_eq(out[0], T0) && sym_eq(out[2], C0), "outside [min depth, max depth] the feature has no effect"); sym_reach("end-depth"); return; }
+    if (!depth_ok) { sym_assert(!painted && sym_eq(out[3], T0) && sym_eq(out[5], C0), "outside [min depth, max depth] the feature has no effect"); sym_reach("end-depth"); return; }
     if (K.calls == 0)
       {
         // discarded by a shortcut before the kernel was consulted
@@ -233,18 +234,18 @@ namespace
     const bool member = Tr::fault ? (ad <= th * 0.5 && K.d_along >= 0 && K.d_along <= L && th >= tr)
                         : (K.d_perp >= tr && K.d_perp <= th && K.d_along >= 0 && K.d_along <= L);
     sym_assert(painted == member, "a point belongs to the feature iff its signed distance is within the interpolated thickness/top truncation and its along-surface distance within the interpolated length");
-    if (!painted) { sym_assert(sym_eq(out[0], T0) && sym_eq(out[2], C0) && sym_eq(out[3], old[3]), "a feature that does not contain the point changes nothing"); sym_reach("end-out"); return; }
+    if (!painted) { sym_assert(sym_eq(out[3], T0) && sym_eq(out[5], C0) && sym_eq(out[0], old[0]), "a feature that does not contain the point changes nothing"); sym_reach("end-out"); return; }
     // interpolation of model results between the two adjacent sections only (C10)
-    double Tc = T0, Tn = T0, Cc = C0, Cn = C0; double Vc[3] = {old[3], old[4], old[3] + 2}, Vn[3] = {old[3], old[4], old[3] + 2};
+    double Tc = T0, Tn = T0, Cc = C0, Cn = C0; double Vc[3] = {old[0], old[1], old[0] + 2}, Vn[3] = {old[0], old[1], old[0] + 2};
     for (unsigned q = 0; q < models; ++q)
       {
         Tc = sym_uf2(100 + 10*unsigned(cs) + unsigned(sg) + 50*q, depth, Tc); Tn = sym_uf2(100 + 10*unsigned(cs+1) + unsigned(sg) + 50*q, depth, Tn);
         Cc = sym_uf2(200 + 10*unsigned(cs) + unsigned(sg) + 50*q + 1000*comp, depth, Cc); Cn = sym_uf2(200 + 10*unsigned(cs+1) + unsigned(sg) + 50*q + 1000*comp, depth, Cn);
         for (unsigned c = 0; c < 3; ++c) { Vc[c] = sym_uf2(500 + 100*c + 10*unsigned(cs) + unsigned(sg) + 50*q, depth, Vc[c]); Vn[c] = sym_uf2(500 + 100*c + 10*unsigned(cs+1) + unsigned(sg) + 50*q, depth, Vn[c]); }
       }
-    sym_assert(sym_eq(out[0], Tc + fs * (Tn - Tc)), "temperature is the section-fraction blend of the two adjacent sections' model chains");
-    sym_assert(sym_eq(out[2], Cc + fs * (Cn - Cc)), "composition is the section-fraction blend of the two adjacent sections' model chains");
-    if (models) for (unsigned c = 0; c < 2; ++c) sym_assert(sym_eq(out[3+c], Vc[c] + fs * (Vn[c] - Vc[c])), "velocity is the section-fraction blend of the two adjacent sections' model chains");
+    sym_assert(sym_eq(out[3], Tc + fs * (Tn - Tc)), "temperature is the section-fraction blend of the two adjacent sections' model chains");
+    sym_assert(sym_eq(out[5], Cc + fs * (Cn - Cc)), "composition is the section-fraction blend of the two adjacent sections' model chains");
+    if (models) for (unsigned c = 0; c < 2; ++c) sym_assert(sym_eq(out[0+c], Vc[c] + fs * (Vn[c] - Vc[c])), "velocity is the section-fraction blend of the two adjacent sections' model chains");
     if (models)
       sym_assert(sym_eq(MS.max_len, L) && sym_eq(MS.thickness, th) && sym_eq(MS.fmin, f->starting_depth) && sym_eq(MS.fmax, f->maximum_depth) && sym_eq(MS.d_perp, K.d_perp) && sym_eq(MS.d_along, K.d_along),
                  "models receive the interpolated local length and thickness, the feature's depth range and the kernel distances");
